@@ -3,13 +3,6 @@
 // Contracts for the gocv verifier (comment-only file; see /verif/DESIGN.md §4).
 package transport
 
-//@ func (t *PipelineTransport) ExchangeContext
-//@   nobody
-//@   log pipelineExchange
-//@   modifies *
-//@   ensures (result_1 == nil) == (result_0 != nil)
-//@   ensures result_1 == nil ==> len(*result_0) >= 12
-
 //@ func (t *ReuseConnTransport) ExchangeContext
 //@   nobody
 //@   log reuseExchange
@@ -336,6 +329,7 @@ package transport
 // ReserveNewQuery (C09): while dialing, at most maxConcurrentQuery queries are queued and a
 // granted reservation is recorded; after the dial the real connection decides.
 //@ func (lc *lazyDnsConn) ReserveNewQuery [C09]
+//@   log lazyReserve
 //@   requires lc != nil
 //@   modifies *
 //@   ensures calls(pollEmpty) == 1 ==> ((result_0 != nil) == (atlock(lc.reservedQuery) < lc.maxConcurrentQuery)) && !closed
@@ -383,7 +377,68 @@ package transport
 // lazyDnsConn.Close (C07): idempotent; a dial still running is cancelled and its waiters are woken
 // with an error; an established connection is closed.
 //@ func (lc *lazyDnsConn) Close [C07]
+//@   log lazyClose
 //@   requires lc != nil
 //@   modifies *
 //@   ensures result == nil && atunlock(lc.closed)
 //@   ensures atlock(lc.closed) ==> calls(chanClose) == 0 && calls(CloseI) == 0
+
+// ---------------------------------------------------------------------------------------------
+// PipelineTransport.
+//@ type PipelineTransport
+//@   immutable dialFunc, dialTimeout, maxLazyConnQueue, logger
+//@   lock m protects closed, conns
+//@   invariant m: self.conns != nil
+//@   invariant m: forall k *lazyDnsConn :: (k in self.conns) ==> k != nil
+//@   invariant self.logger != nil
+
+// getReservedExchanger (C09, C08): connections of the pool are tried first (a closed one is
+// dropped from the pool when it is met); only if none granted a reservation a new connection is
+// dialled and it is registered in the pool; a closed transport refuses.
+//@ func (t *PipelineTransport) getReservedExchanger [C09, C08]
+//@   log getReservedExchanger
+//@   requires t != nil
+//@   modifies *
+//@   ensures (err == nil) == (result_0 != nil)
+//@   ensures atlock(t.closed) ==> err != nil && calls(newLazyDnsConn) == 0 && calls(lazyReserve) == 0
+//@   ensures calls(newLazyDnsConn) <= 1 && (isNewConn ==> calls(newLazyDnsConn) == 1 && result_0 != nil)
+//@   ensures calls(newLazyDnsConn) == 1 ==> atunlock(ret(newLazyDnsConn, 0) in t.conns) && arg(lazyReserve, calls(lazyReserve) - 1, 0) == ret(newLazyDnsConn, 0)
+//@   ensures result_0 != nil && !isNewConn ==> calls(newLazyDnsConn) == 0
+//@   loop 0:
+//@     invariant t != nil && t.conns == atlock(t.conns) && t.conns != nil && 0 <= reserveAttempt && reserveAttempt <= 17 && calls(newLazyDnsConn) == 0
+//@     invariant forall k *lazyDnsConn :: (k in t.conns) ==> k != nil
+//@     each iter_calls(lazyReserve) == 1 && iter_arg(lazyReserve, 0, 0) == c && (iter_ret(lazyReserve, 0, 1) ==> !(c in t.conns))
+//@ func newLazyDnsConn [C09]
+//@   nobody
+//@   log newLazyDnsConn
+//@   modifies *
+//@   ensures result != nil && fresh(result)
+
+// ExchangeContext (C08): a failed attempt is repeated only if it ran on a reused connection, the
+// context is still live and fewer than 2 retries were made: at most 3 transmissions; failure is
+// reported only in those cases or when no exchanger could be had.
+//@ func (t *PipelineTransport) ExchangeContext [C08]
+//@   log pipelineExchange
+//@   requires t != nil && ctx != nil && len(m) >= 12
+//@   modifies *
+//@   ensures (result_1 == nil) == (result_0 != nil)
+//@   ensures result_1 == nil ==> len(*result_0) >= 12
+//@   ensures 0 <= retry && retry <= 2
+//@   ensures result_1 != nil && lastret(getReservedExchanger, 2) == nil ==> lastret(ExchangeReserved, 1) != nil && (lastret(getReservedExchanger, 1) || retry == 2 || (calls(ctxErr) >= 1 && lastret(ctxErr) != nil))
+//@   ensures result_1 == nil ==> result_0 == lastret(ExchangeReserved, 0)
+//@   loop 0:
+//@     invariant t != nil && ctx != nil && len(m) >= 12 && 0 <= retry && retry <= 2
+//@     each iter_calls(getReservedExchanger) == 1 && iter_calls(ExchangeReserved) == 1 && iter_arg(ExchangeReserved, 0, 0) == iter_ret(getReservedExchanger, 0, 0) && iter_arg(ExchangeReserved, 0, 2) == m
+//@     each iter_ret(ExchangeReserved, 0, 1) != nil && !iter_ret(getReservedExchanger, 0, 1)
+//@     decreases 2 - retry
+
+// Close (C07): idempotent; every pooled connection is closed; later calls are refused
+// (getReservedExchanger checks the flag).
+//@ func (t *PipelineTransport) Close [C07]
+//@   requires t != nil
+//@   modifies *
+//@   ensures result == nil && atunlock(t.closed)
+//@   loop 0:
+//@     invariant t != nil && t.conns == atlock(t.conns) && t.closed
+//@     invariant forall k *lazyDnsConn :: (k in t.conns) ==> k != nil
+//@     each iter_calls(lazyClose) == 1 && iter_arg(lazyClose, 0, 0) == conn
